@@ -545,4 +545,116 @@ func TestVerifBreakerAcceptable(t *testing.T) {
 		})
 	}
 	c.Done()
+	perMethodBreaker()
+}
+
+// Every command method, one by one, on a fresh wrapper (own breaker) with the breaker's
+// draw pinned low: a run of redis.Nil answers or of cancelled contexts must never make
+// the breaker shed, a run of failing commands must.
+func perMethodBreaker() {
+	c := vrt.NewCases("transparent/breaker-per-method")
+	vrt.RunOnce(vrt.Options{Name: "breaker/per-method"}, func(r *vrt.Run) {
+		vrt.SetRandHook(func() (int64, bool) { return 0, true })
+		t := newTwin()
+		defer t.s.Close()
+		var mu sync.Mutex
+		failing := false
+		t.s.Server().SetPreHook(func(p *server.Peer, cmd string, args ...string) bool {
+			mu.Lock()
+			defer mu.Unlock()
+			if failing {
+				p.WriteError("ERR verif injected failure")
+				return true
+			}
+			return false
+		})
+		setFailing := func(b bool) { mu.Lock(); failing = b; mu.Unlock() }
+		canceled, cancel := context.WithCancel(context.Background())
+		cancel()
+		const runs = 12
+		for _, i := range alphabet() {
+			if i.conv == "blpop" {
+				continue // documented: blocking pops bypass the breaker
+			}
+			if len(i.raw) == 1 && i.raw[0] == "none" {
+				continue // size 0: answered without contacting the server
+			}
+			for _, kind := range []string{"nil", "canceled", "error"} {
+				t.reset()
+				for _, p := range append(populate(), populateGeo()...) {
+					t.raw.Do(context.Background(), p.raw...)
+				}
+				if kind == "nil" {
+					if len(i.raw) == 0 || i.conv == "pipe" || i.raw[0] == "none" {
+						continue
+					}
+					if _, err := t.raw.Do(context.Background(), i.raw...).Result(); err != red.Nil {
+						continue
+					}
+					if z := zeroFor(i.conv); z != "" {
+						continue // the wrapper swallows the Nil itself
+					}
+				}
+				if kind == "error" && i.m == "Ping" {
+					continue // Ping reports failure as false and, by design, never counts it
+				}
+				rds := redis.New(t.s.Addr())
+				u := &sut{name: "redis.Redis", target: rds, servers: []*twin{t}, ctxForm: kind == "canceled"}
+				shed, other := 0, 0
+				setFailing(kind == "error")
+				for n := 0; n < runs; n++ {
+					var err error
+					switch {
+					case i.conv == "pipe":
+						if kind == "canceled" {
+							err = rds.PipelinedCtx(canceled, func(p redis.Pipeliner) error { p.Incr(canceled, "p"); return nil })
+						} else {
+							_, err = special(u, i)
+						}
+					case kind == "canceled":
+						m := reflect.ValueOf(rds).MethodByName(i.m + "Ctx")
+						res, ok := callMethodCtx(m, canceled, i.args)
+						if !ok {
+							c.Violation(i.String(), "harness", "no Ctx form")
+							continue
+						}
+						_, err = canonResult(i.conv, res)
+					default:
+						res, ok := callMethod(rds, i.m, false, i.args)
+						if !ok {
+							c.Violation(i.String(), "harness", "no plain form")
+							continue
+						}
+						_, err = canonResult(i.conv, res)
+					}
+					if err == breaker.ErrServiceUnavailable {
+						shed++
+					} else if err != nil {
+						other++
+					}
+				}
+				setFailing(false)
+				_, probeErr := rds.Exists("s")
+				c.Eval(fmt.Sprintf("%s/%s", i.m, kind), func() any {
+					return map[string]any{"invocation": i.String(), "kind": kind, "runs": runs, "shed_by_breaker": shed, "probe": fmt.Sprint(probeErr)}
+				})
+				switch kind {
+				case "nil", "canceled":
+					if i.m == "Ping" {
+						other = runs
+					}
+					if shed != 0 || probeErr != nil {
+						c.Violation(i.String()+" "+kind, "tripped", fmt.Sprintf("%d consecutive %s outcomes of %s made the breaker shed %d calls (probe afterwards: %v)", runs, kind, i.m, shed, probeErr))
+					} else if other == 0 && kind == "canceled" {
+						c.Violation(i.String()+" "+kind, "harness", "a cancelled context did not fail the call")
+					}
+				case "error":
+					if shed == 0 {
+						c.Violation(i.String()+" "+kind, "not tripped", fmt.Sprintf("%d consecutive failing %s commands and the breaker never rejected a call", runs, i.m))
+					}
+				}
+			}
+		}
+	})
+	c.Done()
 }
